@@ -66,13 +66,17 @@ Proof. exact (reduce_dims_full x excl idx'). Qed.
    unfolding; then the interface vectors are orthonormal and the squared norm of the tensor is the squared norm of the last core
    (any order, mode sizes, ranks; real and complex).  The same fact makes the spectrum of the last core of an orthogonalised train
    the spectrum of the tensor (C02) and U_(<=k) U_(<=k)^H a projector (C16). ---- *)
-Theorem C07_interface_orthonormal (x : tt R) p q : chained 1 x -> Forall left_orth x -> (p < endrank 1 x)%nat -> (q < endrank 1 x)%nat ->
+Theorem C07_interface_orthonormal (x : tt R) p q : linked 1 x -> Forall left_orth x -> (p < endrank 1 x)%nat -> (q < endrank 1 x)%nat ->
   sum_idx (shape x) (fun idx => rmul (rconj (chainM (slices x idx) 0%nat p)) (chainM (slices x idx) 0%nat q)) = delta p q.
 Proof. exact (interface_orthonormal x p q). Qed.
-Theorem C07_norm2_last_core (pre : tt R) (c : core3 R) : chained 1 pre -> Forall left_orth pre -> r1 c = 1%nat ->
+Theorem C07_norm2_last_core (pre : tt R) (c : core3 R) : linked 1 pre -> Forall left_orth pre -> r1 c = 1%nat ->
   sum_idx (shape (pre ++ [c])) (fun idx => rmul (entry (pre ++ [c]) idx) (rconj (entry (pre ++ [c]) idx)))
   = sum_n (nn c) (fun i => sum_n (endrank 1 pre) (fun p => rmul (e3 c p i 0%nat) (rconj (e3 c p i 0%nat)))).
 Proof. exact (norm2_last_core pre c). Qed.
+Theorem C07_norm2_first_core (c : core3 R) (post : tt R) : r0 c = 1%nat -> chained (r1 c) post -> Forall right_orth post ->
+  sum_idx (shape (c :: post)) (fun idx => rmul (entry (c :: post) idx) (rconj (entry (c :: post) idx)))
+  = sum_n (nn c) (fun i => sum_n (r1 c) (fun p => rmul (e3 c 0%nat i p) (rconj (e3 c 0%nat i p)))).
+Proof. exact (norm2_first_core c post). Qed.
 End C07.
 Print Assumptions C07_dot_full.
 Print Assumptions C07_norm2.
@@ -86,3 +90,4 @@ Print Assumptions C07_bilinear_full.
 Print Assumptions C07_reduce_dims_full.
 Print Assumptions C07_interface_orthonormal.
 Print Assumptions C07_norm2_last_core.
+Print Assumptions C07_norm2_first_core.
